@@ -1,6 +1,6 @@
 (** C15: comparison functions used by the correspondence case files
     (harness/c15.py).  Definitions only. *)
-From SpyneV Require Export C15.Model.
+From SpyneV Require Export C15.Spec.
 
 Definition family_eqb (a b : family) : bool :=
   match a, b with
@@ -119,19 +119,41 @@ Fixpoint flat_ok (s : store) (p : pool) (v : list (Z * list fname)) : bool :=
                    end && flat_ok s p r
   end.
 
+(** the alias table (a Python dict: the last entry of a key is the current one) *)
+Fixpoint last_alias (a : text) (l : list (text * fname)) : option fname :=
+  match l with
+  | [] => None
+  | (a', k) :: r => match last_alias a r with
+                    | Some x => Some x
+                    | None => if text_eqb a a' then Some k else None
+                    end
+  end.
+Definition alt_eqb (model impl : list (text * fname)) : bool :=
+  forallb (fun p => match last_alias (fst p) model with Some k => text_eqb k (snd p) | None => false end) impl
+  && forallb (fun p => existsb (fun q => text_eqb (fst p) (fst q)) impl) model.
+Fixpoint alt_ok (s : store) (p : pool) (v : list (Z * list (text * fname))) : bool :=
+  match v with
+  | [] => true
+  | (h, l) :: r => match hget p h with
+                   | Some c => alt_eqb (alias_table s c) l
+                   | None => false
+                   end && alt_ok s p r
+  end.
+
 (** one correspondence case: the history with the implementation's record, the
     implementation's verdicts on the probe values and its flat field order for
     pool classes at the end of the history *)
-Definition case := (list (op * expect) * list (Z * list (option bool)) * list (Z * list fname))%type.
+Definition case := (list (op * expect) * list (Z * list (option bool)) * list (Z * list fname)
+                     * list (Z * list (text * fname)))%type.
 Definition case_ok (s0 : store) (p0 : pool) (t0 : list snap) (c : case) : bool :=
-  let '(steps, v, fl) := c in
+  let '(steps, v, fl, al) := c in
   match first_diff 0 s0 p0 t0 steps with
   | Some _ => false
-  | None => let (s, p) := final_state s0 p0 steps in verdicts_ok s p v && flat_ok s p fl
+  | None => let (s, p) := final_state s0 p0 steps in verdicts_ok s p v && flat_ok s p fl && alt_ok s p al
   end.
 (** for the log: first differing step, and the model's snapshot of every pool class after it *)
 Definition case_show (s0 : store) (p0 : pool) (t0 : list snap) (c : case) :=
-  let '(steps, v, fl) := c in
+  let '(steps, v, fl, al) := c in
   match first_diff 0 s0 p0 t0 steps with
   | Some i => let (s, p) := final_state s0 p0 (firstn (Z.to_nat (i + 1)) steps) in
               (Some i, map (obs DEPTH s) p, @nil (list (option bool)))
